@@ -146,7 +146,7 @@ func runS16(c *core.Ctx) {
 
 func init() {
 	register(&core.Rule{ID: "S17", Min: 1,
-		Doc: "Twin entry points of the encoder executors agree: vm.EncodeTypedPointer and x86.EncodeTypedPointer take the same sequence of decisions (conditions compared after renaming the local that holds the compiled program), neither assigns any of its parameters (in particular the flag word fv, whose pointer-value bit both executors must see), and each returns its executor's result called with the same value / stack / flag arguments.",
+		Doc: "Twin entry points of the encoder executors agree: vm.EncodeTypedPointer and x86.EncodeTypedPointer take the same sequence of decisions (conditions compared after renaming the local that holds the compiled program), both adjust their parameters identically (the flag word fv reaches the two executors in the same state), and each returns its executor's result called with the same value / stack / flag arguments.",
 		Run: runS17})
 }
 
@@ -183,7 +183,7 @@ func runS17(c *core.Ctx) {
 			case *ast.AssignStmt:
 				for _, l := range x.Lhs {
 					if id, ok := ast.Unparen(l).(*ast.Ident); ok && params[p.ObjectOf(id)] {
-						assigned = append(assigned, id.Name)
+						assigned = append(assigned, exprStr(x.Lhs[0])+" "+x.Tok.String()+" "+exprStr(x.Rhs[0]))
 					}
 				}
 			case *ast.IncDecStmt:
@@ -217,11 +217,9 @@ func runS17(c *core.Ctx) {
 	if strings.Join(vc, " ; ") != strings.Join(xc, " ; ") {
 		diffs = append(diffs, "decisions differ: vm ["+strings.Join(vc, " ; ")+"] vs x86 ["+strings.Join(xc, " ; ")+"]")
 	}
-	if len(va) > 0 {
-		diffs = append(diffs, "vm.EncodeTypedPointer assigns its parameter(s) "+strings.Join(va, ", ")+" (the x86 twin passes them on unchanged)")
-	}
-	if len(xa) > 0 {
-		diffs = append(diffs, "x86.EncodeTypedPointer assigns its parameter(s) "+strings.Join(xa, ", "))
+	// parameters may be adjusted (the consumed pointer-value bit is cleared), but identically
+	if strings.Join(va, " ; ") != strings.Join(xa, " ; ") {
+		diffs = append(diffs, "the parameters are adjusted differently: vm ["+strings.Join(va, " ; ")+"] vs x86 ["+strings.Join(xa, " ; ")+"]")
 	}
 	if strings.Join(vr, " | ") != strings.Join(xr, " | ") {
 		diffs = append(diffs, "executor arguments differ: vm ["+strings.Join(vr, " | ")+"] vs x86 ["+strings.Join(xr, " | ")+"]")
@@ -229,6 +227,82 @@ func runS17(c *core.Ctx) {
 	if len(diffs) > 0 {
 		c.Bad(cn, vmF.Pos(), "%s: the two executors are entered with different state (for example the pointer-value bit, which decides whether a value behind an interface is encoded through its pointer-receiver Marshaler)", strings.Join(diffs, "; "))
 	} else {
-		c.OK(cn, vmF.Pos(), "same %d decisions, no parameter assigned, same executor arguments", len(vc))
+		c.OK(cn, vmF.Pos(), "same %d decisions, same %d parameter adjustment(s), same executor arguments", len(vc), len(va))
+	}
+}
+
+// W11: the pointer-value bit is consumed where it is read. EncodeTypedPointer reads
+// BitPointerValue to choose the compile mode of the type it was called for. If the bit stays
+// in the flag word handed to the program, every codec entered below through an interface or a
+// map element (OP_eface / OP_iface pass the word on unchanged) is compiled in pointer mode too,
+// and pointer-receiver marshalers run on values that are not addressable.
+
+func init() {
+	register(&core.Rule{ID: "W11", Min: 2,
+		Doc: "In both EncodeTypedPointer functions (vm, x86) the flag word passed to the executor has BitPointerValue cleared: between the FindOrCompile call that reads the bit and the executor call there is an assignment `fv &^= 1 << alg.BitPointerValue` (or an equivalent and-not) on every path.",
+		Run: runW11})
+}
+
+func runW11(c *core.Ctx) {
+	p := c.Prog
+	for _, rel := range []string{"internal/encoder/vm", "internal/encoder/x86"} {
+		pk := p.Pkg(rel)
+		if pk == nil {
+			if rel == "internal/encoder/x86" && p.GOARCH != "amd64" {
+				continue
+			}
+			c.Undecided(rel+".EncodeTypedPointer", token.NoPos, "package not loaded")
+			continue
+		}
+		fd := core.FuncDecl(pk, "", "EncodeTypedPointer")
+		cn := rel + ".EncodeTypedPointer/pointer-bit-consumed"
+		if fd == nil || fd.Body == nil {
+			c.Undecided(cn, token.NoPos, "not found")
+			continue
+		}
+		c.Analysed(core.FuncName(pk, fd))
+		paths, ok, why := EnumPaths(p, fd, 1, 500)
+		if !ok {
+			c.Undecided(cn, fd.Pos(), "cannot enumerate paths: %s", why)
+			continue
+		}
+		execs, bad := 0, token.NoPos
+		for _, pt := range paths {
+			cleared := false
+			for _, e := range pt {
+				if as, ok := e.Stmt.(*ast.AssignStmt); ok && len(as.Lhs) == 1 && exprStr(as.Lhs[0]) == "fv" {
+					r := exprStr(as.Rhs[0])
+					if (as.Tok == token.AND_NOT_ASSIGN || strings.Contains(r, "&^")) && strings.Contains(r, "BitPointerValue") {
+						cleared = true
+					}
+				}
+				if e.Call != nil {
+					last := ""
+					if len(e.Call.Args) > 0 {
+						last = exprStr(e.Call.Args[len(e.Call.Args)-1])
+					}
+					isExec := false
+					for _, a := range e.Call.Args {
+						if exprStr(a) == "fv" {
+							isExec = true
+						}
+					}
+					if isExec && !strings.Contains(exprStr(e.Call.Fun), "FindOrCompile") && last != "" {
+						execs++
+						if !cleared && bad == token.NoPos {
+							bad = e.Call.Pos()
+						}
+					}
+				}
+			}
+		}
+		switch {
+		case execs == 0:
+			c.Undecided(cn, fd.Pos(), "no executor call taking fv found")
+		case bad != token.NoPos:
+			c.Bad(cn, bad, "the executor is entered with BitPointerValue still set in fv: the bit described how to compile this type only, but OP_eface / OP_iface hand the word on unchanged, so types first reached below (values in interfaces, map elements) are compiled in pointer mode and their pointer-receiver MarshalJSON runs on non-addressable values; the result then depends on nesting and inline depth")
+		default:
+			c.OK(cn, fd.Pos(), "BitPointerValue is cleared from fv before every executor call (%d path(s))", execs)
+		}
 	}
 }
